@@ -234,4 +234,14 @@ def obligations(tier, sc):
     # a thread stream without ovni.loom (concrete absence, see harness): first or second stream
     obs.append(create_ob("sys_create_noloom_first", 2, 1, kf + ["LOOM_ABSENT=1"]))
     obs.append(create_ob("sys_create_noloom_second", 2, 1, kf + ["LOOM_ABSENT=2"]))
+    # ---- sort criteria over three looms (position independence of the rank handling)
+    obs.append(Obligation(
+        name="sort_criteria_3looms", harness="C15/sort_criteria.c", srcs=sys_srcs, incdirs=UTHASH, native_cflags=GC,
+        unwind=12, timeout=900,
+        desc=dict(functions=["set_sort_criteria", "loom_set_rank_min", "loom_sort", "by_rank", "by_pid", "loom_init_begin", "proc_init_begin", "loom_add_proc"],
+                  symbolic="rank (-1 = none .. 3) and pid (1..4, distinct per loom) of the 2 processes of each of 3 looms",
+                  bound="3 looms x 2 processes, looms in a fixed insertion (= enumeration) order; equal ranks inside a loom excluded",
+                  oracle="refused iff some loom has ranks on only one of its processes, wherever it is enumerated; else sort_by_rank iff all looms have ranks; "
+                         "each loom rank-enabled iff it has ranks, rank_min = minimum, processes ordered by rank resp. pid",
+                  assumptions=[UT_ASSUME])))
     return obs
